@@ -234,6 +234,10 @@ def sweep_high_slots(quick):
             m["partials"][k] = {"name": "PART%d" % k, "samples": [k]}
             m["samples"][k] = {"name": "SMP%d" % k, "chain": [2 + k], "points": [0, 0, 100 + k, 0, 9], "mode": 0, "seq": 5 + k}
         yield {"sweep": "highslots", "model": m, "flips": ["orphans-behind-free-slots", list(owned), list(orphans)]}
+        # ... and with the ID area's performance COUNT (number of performances, not highest slot + 1) below the orphan's slot
+        m2 = copy.deepcopy(m)
+        m2.pop("count_mode")
+        yield {"sweep": "highslots", "model": m2, "flips": ["orphans-beyond-the-count", list(owned), list(orphans)]}
     yield {"sweep": "highslots", "model": model(**tops), "flips": ["all-top"]}
     yield {"sweep": "highslots", "model": model(vol=3), "flips": ["vol", 3]}
 
@@ -342,7 +346,7 @@ class Check(CheckBase):
             "volume->performance->patch->partial->sample relations [thorough: all pairs of flips], no volumes, four "
             "samples per partial, unreferenced sample, orphan performance; (slots) every assignment of a partial's four sample "
             "slots over {unused, 3 samples}, sparse and completely filled partial / patch / performance lists incl. the last slot; (fatheader) "
-            "free-cluster count word x FAT version x chain length 1,2,4 x order; (highslots) items in the highest / middle slots of each directory area (performance 511, patch 1023, partial 4095, sample 8191), orphan performances behind free directory slots; (sharedchain) two samples in one chain: 6 chain orders x 6 offset pairs x same partial / other performance; (names) 11 families (incl. two / three distinct samples with one name) of special name shapes x "
+            "free-cluster count word x FAT version x chain length 1,2,4 x order; (highslots) items in the highest / middle slots of each directory area (performance 511, patch 1023, partial 4095, sample 8191), orphan performances behind free directory slots (ID-area count = highest slot + 1, and = number of performances); (sharedchain) two samples in one chain: 6 chain orders x 6 offset pairs x same partial / other performance; (names) 11 families (incl. two / three distinct samples with one name) of special name shapes x "
             "3 volume/performance names, judged by content only; the window, topology, slots, names and sharedchain cases export "
             "twice from one image object and the second export must equal the first. non-trivial = permuted chain, cluster_top>0, "
             "reverse mode, window ending on a cluster boundary, or a flipped edge")
